@@ -343,7 +343,14 @@ func (c *decoratorController) processNextWorkItem() bool {
 func (c *decoratorController) enqueueParentObject(obj interface{}) {
 	// If the parent doesn't match our selector, and it doesn't have our
 	// finalizer, we don't care about it.
-	if parent, ok := obj.(*unstructured.Unstructured); ok {
+	parent, ok := obj.(*unstructured.Unstructured)
+	if !ok {
+		// The deletion of a parent may be delivered as a tombstone.
+		if tombstone, isTombstone := obj.(cache.DeletedFinalStateUnknown); isTombstone {
+			parent, ok = tombstone.Obj.(*unstructured.Unstructured)
+		}
+	}
+	if ok && parent != nil {
 		if !c.parentSelector.Matches(parent) && !controllerutil.ContainsFinalizer(parent, c.finalizer.Name) {
 			return
 		}
